@@ -212,6 +212,11 @@ def convert_lines(raw_lines):
             e = o["facts"][0]
             index[(ln, 1)] = {"op": "ntt_small", "n": e["n"], "q": e["q"], "root": e["root"]}
             continue
+        if o["ev"] == "batch":
+            ln = len(out) + 1
+            out.append(json.dumps(o))
+            index[(ln, 1)] = {"op": "batch", "n": o["n"], "t": o["t"]}
+            continue
         if o["ev"] == "small":
             out.append(json.dumps(o))
             for i, row in enumerate(o["rows"]):
